@@ -189,6 +189,19 @@ def run_check(run, tier):
     from checks import c13_commute
     c13_commute.run_part(run, tier)
     closure(run, tier)
+    # a repeated request starts from the dump's own thread map: no table entry survives from the previous request
+    from checks import c02
+    run.pending_failures = []
+    c02.verify_set_thread_map(run, tier, prefix_root='C13')
+    for ob, status, detail in run.pending_failures:
+        out = native({'kind': 'v2_search', 'seed': run.seed, 'budget': 300, 'known': ['first-record-leading-zero']}, timeout=600)
+        f = out.get('found')
+        if f:
+            run.violation(ob, {'request': f['request'], 'native': f, 'solver_output': '%s (%s)' % (status, detail)}, True, what=f.get('what', ''))
+        elif status == 'refuted':
+            run.violation(ob, {'request': None, 'solver_output': detail}, False, what='obligation %s no longer holds' % ob)
+        else:
+            run.undecide(ob, detail)
 
 
 def an_C13_closure(mod, name, paths, fq):
